@@ -160,6 +160,20 @@ CHECKS["C08"] = (
     "DESIGN.md §4 C08",
 )
 
+CHECKS["C18"] = (
+    "E-CH",
+    "CrossHair/z3-driven exhaustive fault schedules (overwrite, multifile, pre-existing files, loaded-from-sub-files, fault kind, invalid value) around the real save() on real files; directory snapshots by SHA-256",
+    "Bounded model checking of the real save() over its fault schedule. The solver enumerates every combination of overwrite, "
+    "multifile, target exists, sub-file exists, configuration loaded from sub-files or built as an object, and fault kind (none, a value "
+    "that fails validation chosen from a window, a value that validates but cannot be serialised, an invalid value inside a section "
+    "that goes to a sub-file); for each schedule save() runs on real files in a fresh directory whose snapshot (names, sizes, SHA-256) "
+    "is compared before and after: a refused overwrite leaves pre-existing files byte-identical, a failing save leaves the directory "
+    "exactly as it was in single- and multi-file mode, and a successful save parses back (parse_path) to the saved configuration, "
+    "sub-file sections included. Thorough repeats the schedule for json and json_indented.",
+    "Trusted: the local file system. Outside: I/O errors in the middle of a write, fsspec targets, jsonnet/jsonschema sub-files.",
+    "DESIGN.md §4 C18",
+)
+
 NOT_APPLICABLE = {
     "C13": "the resolver's only input is source code on disk (inspect.getsource/ast.parse/import); a symbolic program cannot be "
     "represented for that code and types/defaults are part of the program, so no dimension of the quantifier can be a solver variable",
